@@ -34,7 +34,9 @@
 (*   translation evaluates to v; if Run falls off the end the translation  *)
 (*   is Undef.  (Where Python raises, the translation may be defined:      *)
 (*   `y = 1/x; return 0` - the property only speaks about points where     *)
-(*   the function is defined.)                                             *)
+(*   the function is defined.)  Aug is translated as an assignment, a For  *)
+(*   over a literal range is unrolled, a body with a While (HasLoop) has   *)
+(*   no translation: the reference translator refuses it.                  *)
 (***************************************************************************)
 EXTENDS PyFn
 
@@ -76,7 +78,9 @@ SubstSeq(e, params, args, i) ==
     IF i > Len(params) THEN e
     ELSE SubstSeq(Subst(e, [x \in {params[i]} |-> args[i]]), params, args, i + 1)
 
-RECURSIVE Paths(_, _, _), PWExprFrom(_, _)
+RECURSIVE Paths(_, _, _), PWExprFrom(_, _), Unroll(_, _)
+
+Unroll(s, j) == IF j >= s.e.v.n THEN <<>> ELSE <<Assign(s.name, Num(j))>> \o s.body \o Unroll(s, j + 1)
 
 \* stmts: the statements still to execute on this path (the continuation is copied into both branches)
 Paths(stmts, sigma, conds) ==
@@ -86,6 +90,11 @@ Paths(stmts, sigma, conds) ==
              e == Subst(s.e, sigma)
          IN CASE s.k = "assign" ->
                     Paths(rest, [x \in DOMAIN sigma \cup {s.name} |-> IF x = s.name THEN e ELSE sigma[x]], conds)
+              [] s.k = "aug" ->
+                    Paths(<<Assign(s.name, Bin(s.op, Var(s.name), s.e))>> \o rest, sigma, conds)
+              [] s.k = "for" ->      \* a literal range is unrolled
+                    Paths(Unroll(s, 0) \o rest, sigma, conds)
+              [] s.k = "while" -> <<>>     \* no translation: callers exclude bodies with HasLoop
               [] s.k = "ret" -> <<Piece(AndAll(conds), e)>>
               [] s.k = "if" ->
                     Paths(s.body \o rest, sigma, Append(conds, e))
